@@ -236,13 +236,4 @@ pub fn shim_slice_as_array64_mut(s: &mut [u8]) -> (r: &mut [u8; 64])
     <&mut [u8; 64]>::try_from(s).unwrap()
 }
 
-/// `Option::ok_or_else` (std documentation): Some(v) -> Ok(v), None -> Err(f())
-pub assume_specification<T, E, F: FnOnce() -> E>[ Option::<T>::ok_or_else ](o: Option<T>, f: F) -> (r: Result<T, E>)
-    requires
-        o.is_none() ==> f.requires(()),
-    ensures
-        r.is_ok() <==> o.is_some(),
-        o.is_some() ==> r == Ok::<T, E>(o.unwrap()),
-;
-
 } // verus!
